@@ -211,18 +211,24 @@ def obligations(ctx):
 
 
 # ---------------------------------------------------------------- generic token-level round trip of struct-level codecs
-MUST_COVER = ['TransactionInput', 'ExUnits', 'UnitInterval', 'ExUnitPrices', 'ProtocolVersion', 'Redeemer', 'ConstrPlutusData', 'Vkeywitness', 'BootstrapWitness', 'Anchor', 'GovernanceActionId', 'VotingProcedure', 'PoolMetadata', 'Update', 'TransactionUnspentOutput', 'StakeDelegation', 'PoolRegistration', 'PoolRetirement', 'GenesisKeyDelegation', 'MoveInstantaneousRewardsCert', 'CommitteeHotAuth', 'CommitteeColdResign', 'DRepRegistration', 'DRepDeregistration', 'DRepUpdate', 'StakeAndVoteDelegation', 'StakeRegistrationAndDelegation', 'StakeVoteRegistrationAndDelegation', 'VoteDelegation', 'VoteRegistrationAndDelegation', 'VotingProposal', 'ParameterChangeAction', 'HardForkInitiationAction', 'TreasuryWithdrawalsAction', 'NoConfidenceAction', 'NewConstitutionAction', 'InfoAction', 'Constitution', 'Transaction', 'SingleHostAddr', 'SingleHostName', 'MultiHostName', 'PoolParams', 'DataOption', 'ScriptRef', 'Header', 'OperationalCert', 'TimelockStart', 'TimelockExpiry', 'ScriptPubkey', 'ScriptAll', 'ScriptAny', 'ScriptNOfK', 'DRepVotingThresholds', 'PoolVotingThresholds', 'ProtocolParamUpdate']
+MUST_COVER = ['TransactionInput', 'ExUnits', 'UnitInterval', 'ExUnitPrices', 'ProtocolVersion', 'Redeemer', 'ConstrPlutusData', 'Vkeywitness', 'BootstrapWitness', 'Anchor', 'GovernanceActionId', 'VotingProcedure', 'PoolMetadata', 'Update', 'TransactionUnspentOutput', 'StakeDelegation', 'PoolRegistration', 'PoolRetirement', 'GenesisKeyDelegation', 'MoveInstantaneousRewardsCert', 'CommitteeHotAuth', 'CommitteeColdResign', 'DRepRegistration', 'DRepDeregistration', 'DRepUpdate', 'StakeAndVoteDelegation', 'StakeRegistrationAndDelegation', 'StakeVoteRegistrationAndDelegation', 'VoteDelegation', 'VoteRegistrationAndDelegation', 'VotingProposal', 'ParameterChangeAction', 'HardForkInitiationAction', 'TreasuryWithdrawalsAction', 'NoConfidenceAction', 'NewConstitutionAction', 'InfoAction', 'Constitution', 'Transaction', 'SingleHostAddr', 'SingleHostName', 'MultiHostName', 'PoolParams', 'DataOption', 'ScriptRef', 'Header', 'OperationalCert', 'TimelockStart', 'TimelockExpiry', 'ScriptPubkey', 'ScriptAll', 'ScriptAny', 'ScriptNOfK', 'DRepVotingThresholds', 'PoolVotingThresholds', 'ProtocolParamUpdate', 'AuxiliaryData', 'GeneralTransactionMetadata', 'MetadataList', 'MetadataMap', 'PlutusScripts', 'Withdrawals', 'Mint', 'MintAssets', 'MultiAsset', 'Assets', 'Redeemers', 'Relays', 'Ed25519KeyHashes', 'TransactionInputs', 'Certificates', 'TransactionOutputs', 'VotingProcedures', 'VotingProposals', 'Committee', 'TreasuryWithdrawals', 'ProposedProtocolParameterUpdates', 'PlutusList', 'AuxiliaryDataSet', 'TransactionBodies', 'TransactionWitnessSets', 'Credentials', 'RewardAddresses', 'MIRToStakeCredentials', 'Block', 'Costmdls', 'Languages', 'AssetNames', 'ScriptHashes', 'Vkeys', 'GenesisHashes', 'Ipv4', 'Ipv6', 'URL', 'DNSRecordAorAAAA', 'DNSRecordSRV', 'CostModel', 'Strings', 'TransactionMetadatumLabels']
+
+SET_TYPES = ("Ed25519KeyHashes", "Credentials", "TransactionInputs", "Certificates", "VotingProposals", "Vkeywitnesses", "BootstrapWitnesses")
 
 GENERIC_TYPES = [
     "TransactionInput", "ExUnits", "UnitInterval", "ExUnitPrices", "ProtocolVersion", "Redeemer", "ConstrPlutusData", "Vkeywitness", "BootstrapWitness",
     "Credential", "DRep", "Anchor", "GovernanceActionId", "VotingProcedure", "Voter", "PoolMetadata", "Update", "TransactionUnspentOutput",
-    "StakeRegistration", "StakeDeregistration", "StakeDelegation", "PoolRegistration", "PoolRetirement", "GenesisKeyDelegation", "MoveInstantaneousRewardsCert",
-    "CommitteeHotAuth", "CommitteeColdResign", "DRepRegistration", "DRepDeregistration", "DRepUpdate", "StakeAndVoteDelegation", "StakeRegistrationAndDelegation",
-    "StakeVoteRegistrationAndDelegation", "VoteDelegation", "VoteRegistrationAndDelegation", "Certificate",
-    "VotingProposal", "ParameterChangeAction", "HardForkInitiationAction", "TreasuryWithdrawalsAction", "NoConfidenceAction", "UpdateCommitteeAction", "NewConstitutionAction",
-    "InfoAction", "GovernanceAction", "Constitution", "Transaction", "SingleHostAddr", "SingleHostName", "MultiHostName", "Relay", "PoolParams",
-    "DataOption", "ScriptRef", "MoveInstantaneousReward", "Header", "OperationalCert", "HeaderBody", "TimelockStart", "TimelockExpiry", "ScriptPubkey", "ScriptAll", "ScriptAny", "ScriptNOfK",
-    "DRepVotingThresholds", "PoolVotingThresholds", "Nonce", "VRFCert", "Value", "TransactionOutput", "ProtocolParamUpdate",
+    "StakeRegistration", "StakeDeregistration", "StakeDelegation", "PoolRegistration", "PoolRetirement", "GenesisKeyDelegation", "MoveInstantaneousRewardsCert", "CommitteeHotAuth", "CommitteeColdResign",
+    "DRepRegistration", "DRepDeregistration", "DRepUpdate", "StakeAndVoteDelegation", "StakeRegistrationAndDelegation", "StakeVoteRegistrationAndDelegation", "VoteDelegation", "VoteRegistrationAndDelegation", "Certificate",
+    "VotingProposal", "ParameterChangeAction", "HardForkInitiationAction", "TreasuryWithdrawalsAction", "NoConfidenceAction", "UpdateCommitteeAction", "NewConstitutionAction", "InfoAction", "GovernanceAction",
+    "Constitution", "Transaction", "SingleHostAddr", "SingleHostName", "MultiHostName", "Relay", "PoolParams", "DataOption", "ScriptRef",
+    "MoveInstantaneousReward", "Header", "OperationalCert", "HeaderBody", "TimelockStart", "TimelockExpiry", "ScriptPubkey", "ScriptAll", "ScriptAny",
+    "ScriptNOfK", "DRepVotingThresholds", "PoolVotingThresholds", "Nonce", "VRFCert", "Value", "TransactionOutput", "ProtocolParamUpdate", "AuxiliaryData",
+    "GeneralTransactionMetadata", "MetadataList", "MetadataMap", "PlutusScripts", "Withdrawals", "Mint", "MintAssets", "MultiAsset", "Assets",
+    "Redeemers", "Relays", "Ed25519KeyHashes", "TransactionInputs", "Certificates", "TransactionOutputs", "VotingProcedures", "VotingProposals", "Committee",
+    "TreasuryWithdrawals", "ProposedProtocolParameterUpdates", "PlutusList", "PlutusMap", "AuxiliaryDataSet", "TransactionBodies", "TransactionWitnessSets", "Credentials", "RewardAddresses",
+    "MIRToStakeCredentials", "Block", "Costmdls", "Languages", "AssetNames", "ScriptHashes", "Vkeys", "GenesisHashes", "Ipv4",
+    "Ipv6", "URL", "DNSRecordAorAAAA", "DNSRecordSRV", "CostModel", "Strings", "TransactionMetadatumLabels", "Vkeywitnesses", "BootstrapWitnesses",
 ]
 
 
@@ -234,7 +240,7 @@ def tokens_equal(E, pc, a, b):
     for x, y in zip(a, b):
         if x[0] != y[0]:
             return False, []
-        for u, v in zip(x[1:], y[1:]):
+        for u, v in zip(x[1:3], y[1:3]):
             if isinstance(u, z3.ExprRef) or isinstance(v, z3.ExprRef):
                 try:
                     eqs.append(u == v)
@@ -291,6 +297,7 @@ def generic_roundtrip(ctx, tys, name, claim=None):
             for combo, base in (presets or [(None, [])]):
                 E = Engine(P, max_loop=12 if presets is None else 80)
                 CM.install(E, target=ty)
+                E.lazy_collection_sizes, E.item_carries_value, E.lazy_vec_distinct = (0, 1, 2), True, ty in SET_TYPES
                 E.base = list(base)
                 po = E.explore("<%s as cbor_event::se::Serialize>::serialize" % ty, lambda: [R(VLazy("v", ty), "self"), R(CM.VSer(), "ser")], max_paths=400)
                 if presets is not None:
@@ -322,6 +329,7 @@ def generic_roundtrip(ctx, tys, name, claim=None):
                         continue
                     D = Engine(P, max_loop=40)
                     CM.install(D, target=ty)
+                    D.lazy_collection_sizes, D.item_carries_value, D.lazy_vec_distinct = (0, 1, 2), True, ty in SET_TYPES
                     D.base = list(o.pc)
                     douts = D.explore("<%s as Deserialize>::deserialize" % ty, lambda: [R(CM.VDe(stream + [SENT]), "raw")], max_paths=200)
                     good = [d for d in douts if d.kind == "return" and d.value.variant == "Ok"]
@@ -341,6 +349,7 @@ def generic_roundtrip(ctx, tys, name, claim=None):
                     D.enter(d)
                     S2 = Engine(P, max_loop=12)
                     CM.install(S2, target=ty)
+                    S2.lazy_collection_sizes, S2.item_carries_value, S2.lazy_vec_distinct = (0, 1, 2), True, ty in SET_TYPES
                     S2.base = list(d.pc)
                     S2.lazy_ident_seed = dict(d.idents)
                     dec = d.value.fields[0]
@@ -352,6 +361,9 @@ def generic_roundtrip(ctx, tys, name, claim=None):
                         local.violation("%s: the decoded value does not re-encode deterministically (%d ways)" % (ty, len(routs))); continue
                     t2 = VM.deref(S2, routs[0].args[1]).tokens
                     same, eqs = tokens_equal(S2, routs[0].pc, toks, t2)
+                    if not same and variant == "indefinite":
+                        # a type that deliberately remembers the spelling it was decoded from (Plutus lists) re-emits the indefinite form
+                        same, eqs = tokens_equal(S2, routs[0].pc, stream, t2)
                     if not same:
                         local.violation("%s (%s encoding): decode then encode gives a different structure: %s vs %s" % (ty, variant, [t[0] for t in toks], [t[0] for t in t2]))
                     elif eqs:
